@@ -26,6 +26,7 @@ def run(chk, tier):
     cfgfacts.check_assert_config(chk)
     chk.floor("R-CHK", chk.rule_counts.get("R-CHK", 0), 1500)
     chk.floor("R-CHK.step", chk.rule_counts.get("R-CHK.step", 0), 2)
+    chk.floor("R-CHK.ref", chk.rule_counts.get("R-CHK.ref", 0), 8)
     chk.extra["functions_analysed"] = tot[0]
     chk.extra["functions_skipped_budget_or_visit"] = tot[2]
     chk.assumptions += ["dimension / length encodings are unsigned (SBE requirement; the validator does not enforce it: finding D15)",
@@ -41,7 +42,8 @@ def run(chk, tier):
                      "SBEPP_SIZE_CHECKS_ENABLED over the four configuration macros. Decides the per-operation clause; "
                      "operation sequences follow operation by operation. R-CHK.step: an operation of a class carrying `end` "
                      "that moves its own ptr by an amount read from the buffer (forward iterator step) must have asserted "
-                     "facts implying ptr' <= end, since later checks compute end - ptr unsigned. Formation of out-of-range "
+                     "facts implying ptr' <= end, since later checks compute end - ptr unsigned. R-CHK.ref: an lvalue into the buffer that an operation returns (operator[], front, "
+                     "back) is covered like an access. Formation of out-of-range "
                      "pointers by caller-supplied amounts (random access iterator arithmetic) is not covered."),
         rule_text=("instances = (function instantiation shape, path, access event); distinct by (function template, access "
                    "kind, address form); all are non-trivial (each needs a dominance + affine implication test)"))
